@@ -183,16 +183,8 @@ Proof.
   intros d H. cbn [del_conn s_pubsub] in H. apply unsubscribe_all_entries in H. destruct H as [N H].
   rewrite has_conn_del_conn. destruct (Z.eqb_spec d c); [contradiction | auto].
 Qed.
-Lemma SrvInv_reap s c : SrvInv s -> SrvInv (reap s c).
-Proof.
-  intros H. unfold reap. destruct (zlookup c (s_conns s)); [|exact H].
-  destruct (c_closing c0 && negb (is_subscribed (s_pubsub s) c)); [apply SrvInv_del_conn|]; exact H.
-Qed.
 Lemma SrvInv_close_conn s c : SrvInv s -> SrvInv (close_conn s c).
-Proof.
-  intros H. unfold close_conn. destruct (zlookup c (s_conns s)); [|exact H].
-  apply SrvInv_reap. eapply SrvInv_keeps; [apply keeps_set_conn | exact H].
-Qed.
+Proof. apply SrvInv_del_conn. Qed.
 Lemma SrvInv_connect s c : SrvInv s -> SrvInv (connect s c).
 Proof. intros H. eapply SrvInv_keeps; [apply keeps_set_conn | exact H]. Qed.
 
@@ -263,11 +255,9 @@ Proof.
   destruct (beq (upper (trim b)) (bs "SUBSCRIBE")); [intros H; eapply SrvInv_h_sub; eassumption|].
   destruct (beq (upper (trim b)) (bs "PSUBSCRIBE")); [intros H; eapply SrvInv_h_sub; eassumption|].
   destruct (beq (upper (trim b)) (bs "UNSUBSCRIBE")).
-  { destruct (h_unsub true s c (FBulk b :: rest)) as [[d0 r0] s0] eqn:E. intros H; inversion H; subst.
-    apply SrvInv_reap. eapply SrvInv_h_unsub; eassumption. }
+  { intros H. eapply SrvInv_h_unsub; eassumption. }
   destruct (beq (upper (trim b)) (bs "PUNSUBSCRIBE")).
-  { destruct (h_unsub false s c (FBulk b :: rest)) as [[d0 r0] s0] eqn:E. intros H; inversion H; subst.
-    apply SrvInv_reap. eapply SrvInv_h_unsub; eassumption. }
+  { intros H. eapply SrvInv_h_unsub; eassumption. }
   apply Other.
 Qed.
 
@@ -449,11 +439,9 @@ Proof.
   destruct (beq (upper (trim b)) (bs "SUBSCRIBE")); [apply ToC; intros x; eapply direct_to_issuer_sub; exact H|].
   destruct (beq (upper (trim b)) (bs "PSUBSCRIBE")); [apply ToC; intros x; eapply direct_to_issuer_sub; exact H|].
   destruct (beq (upper (trim b)) (bs "UNSUBSCRIBE")).
-  { destruct (h_unsub true s c (FBulk b :: rest)) as [[d0 r0] s0] eqn:E. inversion H; subst.
-    apply ToC; intros x; eapply direct_to_issuer_unsub; exact E. }
+  { apply ToC; intros x; eapply direct_to_issuer_unsub; exact H. }
   destruct (beq (upper (trim b)) (bs "PUNSUBSCRIBE")).
-  { destruct (h_unsub false s c (FBulk b :: rest)) as [[d0 r0] s0] eqn:E. inversion H; subst.
-    apply ToC; intros x; eapply direct_to_issuer_unsub; exact E. }
+  { apply ToC; intros x; eapply direct_to_issuer_unsub; exact H. }
   eapply Other; exact H.
 Qed.
 
@@ -564,13 +552,6 @@ Proof.
   - rewrite Y. destruct (c =? c'); auto.
 Qed.
 
-Lemma unsubscribed_reap s c c' : unsubscribed (s_pubsub s) c -> unsubscribed (s_pubsub (reap s c')) c.
-Proof.
-  intros H. unfold reap. destruct (zlookup c' (s_conns s)); [|exact H].
-  destruct (c_closing c0 && negb (is_subscribed (s_pubsub s) c')); [|exact H].
-  cbn [del_conn s_pubsub]. apply unsubscribed_unsub_all. exact H.
-Qed.
-
 Lemma h_sub_unsubscribed chan s c' parts d r s' c :
   c' <> c -> unsubscribed (s_pubsub s) c -> h_sub chan s c' parts = (d, r, s') -> unsubscribed (s_pubsub s') c.
 Proof.
@@ -635,13 +616,11 @@ Proof.
   { intros H. split; [eapply h_sub_unsubscribed; eassumption|].
     apply (stream_to_issuer c c' d N'). intros x. eapply direct_to_issuer_sub; exact H. }
   destruct (beq (upper (trim b)) (bs "UNSUBSCRIBE")).
-  { destruct (h_unsub true s c' (FBulk b :: rest)) as [[d0 r0] s0] eqn:E. intros H; inversion H; subst.
-    split; [apply unsubscribed_reap; eapply h_unsub_unsubscribed; eassumption|].
-    apply (stream_to_issuer c c' d N'). intros x. eapply direct_to_issuer_unsub; exact E. }
+  { intros H. split; [eapply h_unsub_unsubscribed; eassumption|].
+    apply (stream_to_issuer c c' d N'). intros x. eapply direct_to_issuer_unsub; exact H. }
   destruct (beq (upper (trim b)) (bs "PUNSUBSCRIBE")).
-  { destruct (h_unsub false s c' (FBulk b :: rest)) as [[d0 r0] s0] eqn:E. intros H; inversion H; subst.
-    split; [apply unsubscribed_reap; eapply h_unsub_unsubscribed; eassumption|].
-    apply (stream_to_issuer c c' d N'). intros x. eapply direct_to_issuer_unsub; exact E. }
+  { intros H. split; [eapply h_unsub_unsubscribed; eassumption|].
+    apply (stream_to_issuer c c' d N'). intros x. eapply direct_to_issuer_unsub; exact H. }
   apply Other.
 Qed.
 
@@ -649,10 +628,7 @@ Definition not_by (c : Z) (e : sev) : Prop :=
   match e with EReq c' _ | EConnect c' => c' <> c | _ => True end.
 
 Lemma unsubscribed_close s c c' : unsubscribed (s_pubsub s) c -> unsubscribed (s_pubsub (close_conn s c')) c.
-Proof.
-  intros U. unfold close_conn. destruct (zlookup c' (s_conns s)); [|exact U].
-  apply unsubscribed_reap. exact U.
-Qed.
+Proof. intros U. cbn [close_conn del_conn s_pubsub]. apply unsubscribed_unsub_all. exact U. Qed.
 
 (** once a connection is gone (torn down, or closed without subscriptions) nothing is written to
     it, whatever the other connections do, until the id connects again *)
@@ -682,6 +658,18 @@ Lemma after_drop_nothing now s c h :
 Proof.
   intros HI F. apply after_gone_nothing; [apply SrvInv_del_conn; exact HI | | exact F].
   cbn [del_conn s_pubsub]. apply unsubscribed_after_all.
+Qed.
+
+(** any disconnect - the client closes its socket, QUIT, a protocol error (Closing: EClose) or a
+    torn-down connection (EDrop) - ends all deliveries to that connection *)
+Definition disconnects (c : Z) (e : sev) : Prop := e = EClose c \/ e = EDrop c.
+Lemma after_disconnect_nothing now s c e h :
+  SrvInv s -> disconnects c e -> Forall (not_by c) h -> stream_of c (fst (sev_run now s (e :: h))) = [].
+Proof.
+  intros HI D F. cbn [sev_run].
+  assert (E : sev_step now s e = ([], del_conn s c)) by (destruct D as [->| ->]; reflexivity).
+  rewrite E. pose proof (after_drop_nothing now s c h HI F) as X.
+  destruct (sev_run now (del_conn s c) h) as [o2 s2]. exact X.
 Qed.
 
 (** ---- coherence with the single-reply model (C05, C07, C17 ... are stated on process_frame /
